@@ -28,6 +28,29 @@ def is_aig(spelling):
 def invoke(case, c, operands):
     """Run the real generator described by `case` on circuit c.  Returns
     (out_pairs [(level,label)], in_pairs [(weight,label)], flags)."""
+    guard = gencommon.OperandLists(operands, alias=case.get("alias", False))
+    try:
+        return _invoke(case, c, guard.lists)
+    finally:
+        guard.check()
+
+
+def used_before(case, host):
+    """History: the same gadget was already requested in this circuit and the user removed one of its
+    (unused) result gates afterwards; the host is re-snapshotted so that the measured call is the second one."""
+    try:
+        res = _invoke(case, host.c, [list(o) for o in host.operands])
+    except Exception:  # noqa: BLE001
+        return  # the measured call will raise as well and be reported there
+    used = {x for ops in host.operands for x in ops}
+    victims = [l for _, l in res[0] if l not in used and l in host.c.gates and not host.c.get_gate_users(l) and l not in host.c.outputs]
+    idle = [l for l in host.before_net if l not in used and l not in host.c.inputs and not host.c.get_gate_users(l) and l not in host.c.outputs]
+    if idle or victims:
+        host.c.remove_gate((idle or victims)[0])  # an older gate, not the one created last
+    host.refresh()
+
+
+def _invoke(case, c, operands):
     fn = case["fn"]
     b = basis_obj(case.get("basis", "enum:XAIG"))
     be = case.get("big_endian", False)
@@ -41,13 +64,13 @@ def invoke(case, c, operands):
     if fn in ("add_sum_n_bits", "add_sum_n_bits_easy"):
         ops = operands[0]
         if fn == "add_sum_n_bits":
-            res = A.add_sum_n_bits(c, list(ops), basis=b, big_endian=be)
+            res = A.add_sum_n_bits(c, ops, basis=b, big_endian=be)
         else:
-            res = A.add_sum_n_bits_easy(c, list(ops), big_endian=be)
+            res = A.add_sum_n_bits_easy(c, ops, big_endian=be)
         return levels(res), [(0, l) for l in ops], flags
     if fn in ("add_sum2", "add_sum3"):
         ops = operands[0]
-        res = getattr(A, fn)(c, list(ops))
+        res = getattr(A, fn)(c, ops)
         return levels(res), [(0, l) for l in ops], flags
     if fn in ("add_sum_n_weighted_bits", "add_sum_n_weighted_bits_naive"):
         ops = operands[0]
@@ -56,20 +79,20 @@ def invoke(case, c, operands):
         return [(lev, lab) for lev, lab in res], pw, flags
     if fn == "add_sum_two_numbers":
         a, bb = operands
-        res = A.add_sum_two_numbers(c, list(a), list(bb), big_endian=be)
+        res = A.add_sum_two_numbers(c, a, bb, big_endian=be)
         na, nb = len(a), len(bb)
         ins = [((na - 1 - i) if be else i, l) for i, l in enumerate(a)] + [((nb - 1 - i) if be else i, l) for i, l in enumerate(bb)]
         return levels(res), ins, flags
     if fn == "add_sum_two_numbers_with_shift":
         a, bb = operands
         sh = case["shift"]
-        res = A.add_sum_two_numbers_with_shift(c, sh, list(a), list(bb), big_endian=be)
+        res = A.add_sum_two_numbers_with_shift(c, sh, a, bb, big_endian=be)
         na, nb = len(a), len(bb)
         ins = [((na - 1 - i) if be else i, l) for i, l in enumerate(a)] + [(((nb - 1 - i) if be else i) + sh, l) for i, l in enumerate(bb)]
         return levels(res), ins, flags
     if fn == "add_sum_pow2_m1":
         ops = operands[0]
-        res = A.add_sum_pow2_m1(c, list(ops), big_endian=be, basis=b)
+        res = A.add_sum_pow2_m1(c, ops, big_endian=be, basis=b)
         out = []
         for k, labs in enumerate(res):
             for l in labs:
@@ -142,6 +165,9 @@ def check_case(p, case, rnd, timeout_ms=120000):
     host = gencommon.Host(case.get("host", "fresh"), case["widths"], rnd)
     desc = f"{case} in {host.before_desc}"
     p.case(("c07", repr(sorted(case.items()))), sample=desc if len(p.samples) < 3 else None)
+    if case.get("history") == "remove-and-call-again":
+        used_before(case, host)
+        desc = f"{case} in {host.before_desc}"
     outs_before = list(host.c.outputs)
     try:
         outs, ins, flags = invoke(case, host.c, host.operands)
@@ -244,6 +270,15 @@ def make_cases(tier, rnd):
             cases.append(dict(fn="add_sum_n_weighted_bits_naive", widths=[n], weights=ws, basis=rnd.choice(BASES), host="literal-labels", rep=rep_))
             cases.append(dict(fn="add_sum_two_numbers_with_shift", widths=[n, max(1, n - 1)], shift=rep_, host="literal-labels", rep=rep_))
             cases.append(dict(fn="add_sum_pow2_m1", widths=[n], basis="enum:XAIG", host="literal-labels", rep=rep_))
+    # the same gadget requested twice with a host gate removed in between
+    for n in (2, 3, 5):
+        ws = [rnd.randint(0, 2) for _ in range(n)]
+        for hk in ("fresh", "host"):
+            cases.append(dict(fn="add_sum_n_bits", widths=[n], basis="enum:XAIG", host=hk, history="remove-and-call-again"))
+            cases.append(dict(fn="add_sum_n_weighted_bits", widths=[n], weights=ws, basis="enum:AIG", host=hk, history="remove-and-call-again"))
+            cases.append(dict(fn="add_sum_two_numbers", widths=[n, n], host=hk, history="remove-and-call-again"))
+        cases.append(dict(fn="add_sum_two_numbers", widths=[n, n], host="repeat2", alias=True))
+        cases.append(dict(fn="add_sum_two_numbers_with_shift", widths=[n, n], shift=1, host="repeat2", alias=True))
     # bit counts
     ns = list(range(1, 13)) + [16, 24, 31, 32] if not thorough else list(range(1, 33))
     for n in ns:
